@@ -485,6 +485,24 @@ def run_family(c):
             continue
         bad = [i for i in range(n) if not C.peq_all(got[i], want[i], nax, 1e-9)]
         ck.check(not bad, site + f":{name}:image-of-every-member", (len(bad), bad[:3], got[bad[0]].tolist() if bad else None, want[bad[0]].tolist() if bad else None))
+    # round 16: composition of the family with ONE transformation that commutes with none of the kinds (a shear with a translation part),
+    # in both orders: member i of S * T is S o T[i], member i of T * S is T[i] o S
+    Sm = np.eye(d + 1)
+    Sm[0, 1], Sm[0, d], Sm[1, d] = 1.0, 2.0, -1.0
+    if d == 3:
+        Sm[2, 0], Sm[2, d] = -1.0, 3.0
+    S1 = Transformation(Sm.copy())
+    for name, fn, want in (("single*family", lambda: S1 * T, np.einsum("ij,njk->nik", Sm, mats)), ("family*single", lambda: T * S1, np.einsum("nij,jk->nik", mats, Sm))):
+        r, f = call(site + ":" + name, fn)
+        if f:
+            ck.add(f)
+            continue
+        ra = np.asarray(getattr(r, "array", None))
+        if not ck.check(isinstance(r, TransformationCollection) and ra.shape == gshape + (d + 1, d + 1), site + f":{name}:shape", (type(r).__name__, ra.shape)):
+            continue
+        got = ra.reshape(mats.shape)
+        bad = [i for i in range(n) if not C.peq_all(got[i], want[i], 2, 1e-9)]
+        ck.check(not bad, site + f":{name}:every-member", (len(bad), bad[:3]))
     inv, f = call(site + ":inverse", T.inverse)
     if f:
         ck.add(f)
